@@ -58,7 +58,9 @@ Inductive case :=
         (calls : list (bool * nat * Z))           (* scripted drop?, outcome / response shape, its argument *)
         (rows : list (list Z))                    (* driver rows, see the two verif_c09_driver_test.go *)
 | TCase (ops : list nat)                          (* shedding statistics: 0 IncrTotal, 1 IncrPass, 2 IncrDrop, 3 reporting tick *)
-        (ticks : list (list Z)).                  (* per tick the logged [total; pass; drop] *)
+        (ticks : list (list Z))                   (* per tick the logged [total; pass; drop] *)
+| UCase (start after : Z).                        (* smoothed CPU usage set to `start`; its value after one (at most two)
+                                                     refreshes of lib/stat/usage.go with a real (hot) sample *)
 
 (* short names used by the case encoder *)
 Definition WAdd := Add.
@@ -223,7 +225,11 @@ Definition s_spec_ok (window nb cpu : Z) (ops : list xsop) (panicked : bool) (ro
 (* ---------- integrations: sheddinghandler.go / sheddinginterceptor.go over a recording shedder ---------- *)
 Definition rpc_of (k : nat) (arg : Z) : rpc_out :=
   match k with
-  | 0%nat => ROk | 1%nat => RStatus arg | 2%nat => RDeadline | 3%nat => RWrapsDeadline | _ => RPanic
+  | 0%nat => ROk | 1%nat => RStatus arg | 2%nat => RDeadline | 3%nat => RWrapsDeadline
+  (* the request's context already dead on arrival: 7 expired, handler returns ctx.Err(); 8 cancelled, same; 9 expired,
+     handler answers all the same *)
+  | 7%nat => RDeadline | 8%nat => RCanceled | 9%nat => ROk
+  | _ => RPanic
   end.
 Definition shape_of (k : nat) (arg : Z) : shape :=
   match k with
@@ -234,7 +240,7 @@ Definition shape_of (k : nat) (arg : Z) : shape :=
 (* what comes back to the caller of the RPC chain (crash guard outside): see the driver's legend *)
 Definition rpc_back (o : rpc_out) : Z :=
   match o with
-  | ROk => -1 | RStatus c => if c =? 0 then -1 else c | RDeadline => 100 | RWrapsDeadline => 101
+  | ROk => -1 | RStatus c => if c =? 0 then -1 else c | RDeadline => 100 | RWrapsDeadline => 101 | RCanceled => 102
   | RPanic => 13                      (* codes.Internal, crashinterceptor.go:32 *)
   end.
 Definition i_row (http guard : bool) (c : cnt) (drop : bool) (k : nat) (arg : Z) : list Z :=
@@ -263,7 +269,7 @@ Fixpoint i_spec (http guard : bool) (n_in n_fail n_drop : Z) (calls : list (bool
       let n_in' := if drop then n_in else n_in + 1 in
       let n_drop' := if drop then n_drop + 1 else n_drop in
       let is_fail := negb drop && (if http then (match k with 0%nat | 3%nat => arg =? 503 | _ => false end)
-                                   else Nat.eqb k 2) in
+                                   else Nat.eqb k 2 || Nat.eqb k 7) in
       let n_fail' := if is_fail then n_fail + 1 else n_fail in
       (li =? (if drop then 0 else 1)) && (infl =? 0) && (dup =? 0) && (ps + fl =? n_in') && (dr =? n_drop') &&
       (fl =? n_fail') && (if http then true else negb (back =? 300)) &&
@@ -295,6 +301,12 @@ Definition t_spec (ops : list nat) (ticks : list (list Z)) : bool :=
   list_eqb Z.eqb (map (fun row => nth 1 row (-1)) ticks) (t_counts 1 ops 0 []) &&
   list_eqb Z.eqb (map (fun row => nth 2 row (-1)) ticks) (t_counts 2 ops 0 []).
 
+(* ---------- CPU smoothing: after one or two refreshes from `start`, with samples in [0, 1200] ---------- *)
+(* (the sample is the real CPU reading, at most ~1000 = the whole quota; the float evaluation may differ by 1) *)
+Definition u_lo (start : Z) : Z := cpu_next (cpu_next start 0) 0 - 1.
+Definition u_hi (start : Z) : Z := Z.max (cpu_next start 1200) (cpu_next (cpu_next start 1200) 1200) + 1.
+Definition u_ok (start after : Z) : bool := (u_lo start <=? after) && (after <=? u_hi start).
+
 (* ---------- entry points ---------- *)
 Definition model_ok (c : case) : bool :=
   match c with
@@ -302,6 +314,7 @@ Definition model_ok (c : case) : bool :=
   | SCase w nb cpu ops p rows => s_model_ok w nb cpu ops p rows
   | ICase http guard calls rows => i_run http guard (mkcnt 0 0 0 0) calls rows
   | TCase ops ticks => list_eqb (list_eqb Z.eqb) (t_run 0 0 0 ops) ticks
+  | UCase start after => u_ok start after
   end.
 
 Definition spec_ok (c : case) : bool :=
@@ -310,4 +323,7 @@ Definition spec_ok (c : case) : bool :=
   | SCase w nb cpu ops p rows => s_spec_ok w nb cpu ops p rows
   | ICase http guard calls rows => i_spec http guard 0 0 0 calls rows
   | TCase ops ticks => t_spec ops ticks
+  (* the smoothing is an EMA with fixed weights from the first sample on: one or two hot samples move the value by at
+     most 5% each; in particular from 0 it stays far below the shedder's threshold (900) *)
+  | UCase start after => u_ok start after && (if start =? 0 then after <? 900 else true)
   end.
